@@ -2,7 +2,7 @@
 from __future__ import annotations
 
 import ast
-from typing import Any, Iterable
+from typing import Any, Iterable, Optional
 
 from ..model import AnalysisError, ClassInfo, FuncInfo, Program, dotted, norm, self_attr, stmts_no_doc, walk_no_nested
 from ..report import RuleContext
@@ -99,6 +99,8 @@ def rule_sp_acc(ctx: RuleContext, p: Program, rid: str, ctx_len: int = 3) -> Non
             super().__init__(ts, [], module=m)
             self.doc, self.me = doc, me
             self.edits = 0
+            self.split: Optional[int] = None
+            self.unknown_used = False
 
         def idx(self, t: Any, node: Any) -> int:
             for i, x in enumerate(self.doc):
@@ -132,6 +134,32 @@ def rule_sp_acc(ctx: RuleContext, p: Program, rid: str, ctx_len: int = 3) -> Non
             if name == 'replace':
                 d[self.idx(args[0], node)] = args[1]
                 return None
+            if f'TokenStore.{name}' in ts.funcs:
+                # a store method this mock does not model (a new iterator / lookup): its own code, interpreted on an abstract store of
+                # len(doc) tokens cut into blocks at self.split (the caller repeats the case for every cut)
+                self.edits -= 1
+                self.unknown_used = True
+                layout = [len(d)] if self.split is None else [self.split, len(d) - self.split]
+                enc = [('tok', self.idx(a, node)) if isinstance(a, possem.Obj) else a for a in args]
+                res, changed = possem.store_query(ts, name, layout, enc)
+                if changed:
+                    raise self.err(node, f'store method {name} changes the store; not modelled here')
+
+                def dec(v: Any) -> Any:
+                    if isinstance(v, tuple) and len(v) == 2 and v[0] == 'tok':
+                        return d[v[1]]
+                    if isinstance(v, tuple) and len(v) == 2 and v[0] == 'raises':
+                        raise possem.Raised(f'{v[1]} (in TokenStore.{name})')
+                    if isinstance(v, list):
+                        return [dec(x) for x in v]
+                    if isinstance(v, tuple):
+                        raise self.err(node, f'store method {name} returns {v!r}')
+                    return v
+                out = dec(res)
+                fn_ = ts.funcs[f'TokenStore.{name}']
+                if isinstance(out, list) and any(isinstance(x, (ast.Yield, ast.YieldFrom)) for x in ast.walk(fn_.node)):
+                    return possem._It(out)          # a generator method hands out an iterator
+                return out
             raise self.err(node, f'store method {name}')
 
         def expr(self, e: Any, env: dict) -> Any:            # type: ignore[override]
@@ -211,26 +239,36 @@ def rule_sp_acc(ctx: RuleContext, p: Program, rid: str, ctx_len: int = 3) -> Non
                     me = possem.Obj('Model', {'token_store': store, 'first_token': doc[first], 'last_token': doc[last]}, 'model')
                     show = f'{" ".join(left) or "-"} [{"O " * msize}] {" ".join(right) or "-"}'.replace('Z', 'mark').replace('z', 'empty').replace('S', 'blank').replace('N', 'newline').replace('O', 'other')
                     want = run_ref(doc, side, first, last)
-                    it = Interp(list(doc), me)
-                    n += 1
-                    try:
+                    splits: list = [None]
+                    si = 0
+                    while si < len(splits):
+                      split = splits[si]
+                      si += 1
+                      cut = '' if split is None else f' (store blocks cut after token {split})'
+                      it = Interp(list(doc), me)
+                      it.split = split
+                      n += 1
+                      try:
                         got = it.call_function(getters[side], [me], {})
-                    except possem.Raised as ex:
-                        problems.setdefault(f'raw_spacing_{side}', f'document {show}: the getter raises {ex}')
+                      except possem.Raised as ex:
+                        problems.setdefault(f'raw_spacing_{side}', f'document {show}{cut}: the getter raises {ex}')
                         continue
-                    gi = [next((i for i, t in enumerate(doc) if t is r), -1) for r in (got or ())]
-                    if gi != want or it.edits:
-                        problems.setdefault(f'raw_spacing_{side}', f'document {show}: the getter returns positions {gi}, the adjacent run (in document order) is {want}'
+                      if it.unknown_used and split is None:
+                        splits += list(range(1, len(doc)))
+                      gi = [next((i for i, t in enumerate(doc) if t is r), -1) for r in (got or ())]
+                      if gi != want or it.edits:
+                        problems.setdefault(f'raw_spacing_{side}', f'document {show}{cut}: the getter returns positions {gi}, the adjacent run (in document order) is {want}'
                                             + ('; it edits the store' if it.edits else ''))
                         continue
-                    new = [possem.Obj('Whitespace', {'raw_text': '  '}, 'new0'), possem.Obj('Newline', {'raw_text': '\n'}, 'new1')]
-                    for payload in (new, []):
+                      new = [possem.Obj('Whitespace', {'raw_text': '  '}, 'new0'), possem.Obj('Newline', {'raw_text': '\n'}, 'new1')]
+                      for payload in (new, []):
                         work = list(doc)
                         it2 = Interp(work, me)
+                        it2.split = split
                         try:
                             it2.call_function(setters[side], [me, tuple(payload)], {})
                         except possem.Raised as ex:
-                            problems.setdefault(f'raw_spacing_{side}[set]', f'document {show}: the setter raises {ex}')
+                            problems.setdefault(f'raw_spacing_{side}[set]', f'document {show}{cut}: the setter raises {ex}')
                             continue
                         if want:
                             exp = doc[:want[0]] + payload + doc[want[-1] + 1:]
@@ -241,7 +279,7 @@ def rule_sp_acc(ctx: RuleContext, p: Program, rid: str, ctx_len: int = 3) -> Non
                         if [id(x) for x in work] != [id(x) for x in exp]:
                             def names(ts_: list) -> str:
                                 return ' '.join(t.label for t in ts_)
-                            problems.setdefault(f'raw_spacing_{side}[set]', f'document {show}: assigning {len(payload)} token(s) gives [{names(work)}], expected [{names(exp)}]')
+                            problems.setdefault(f'raw_spacing_{side}[set]', f'document {show}{cut}: assigning {len(payload)} token(s) gives [{names(work)}], expected [{names(exp)}]')
     # no store: refused before anything happens
     for side in ('before', 'after'):
         tok = possem.Obj('Account', {'raw_text': 'x'}, 'free')
@@ -479,7 +517,13 @@ def rule_sp_sem(ctx: RuleContext, p: Program, rid: str, max_len: int = 5) -> Non
                             t.cls = 'Newline'
                 nxt = {id(t): (toks[i + 1] if i + 1 < len(toks) else None) for i, t in enumerate(toks)}
                 it = Interp(ts, [], module=m)
-                res = it.call_function(fn, [toks[0] if toks else None, lambda t: nxt[id(t)]], {})
+                if len(fn.params) == 2:
+                    res = it.call_function(fn, [toks[0] if toks else None, lambda t: nxt[id(t)]], {})      # (first neighbour, successor function)
+                elif len(fn.params) == 1:
+                    res = it.call_function(fn, [possem._It(toks)], {})                                      # (iterator over the neighbours)
+                else:
+                    ctx.not_decided.append('SP-SEM: _find_spacing has a signature this rule cannot drive; the accessors are evaluated whole by SP-ACC')
+                    return
                 n += 1
                 if not isinstance(res, (list, tuple)):
                     raise AnalysisError(f'SP-SEM: _find_spacing returned {res!r}')
